@@ -80,9 +80,10 @@ type Logging struct {
 // PluginElem is a documented plugin with its numeric options typed as YAML int / float / string.
 type PluginElem struct {
 	Name string `json:"name"`
-	Typ  string `json:"typ,omitempty"` // int | float | string  (size_limit, gzip)
-	A    int    `json:"a,omitempty"`   // size_limit: max_request_body; gzip: level
-	B    int    `json:"b,omitempty"`   // size_limit: max_response_body; gzip: min_size
+	Typ  string `json:"typ,omitempty"`  // int | float | string  (size_limit, gzip)
+	Bare string `json:"bare,omitempty"` // "" = documented payload; otherwise the entry has no usable config: absent | null | null-explicit | tilde | empty
+	A    int    `json:"a,omitempty"`    // size_limit: max_request_body; gzip: level
+	B    int    `json:"b,omitempty"`    // size_limit: max_response_body; gzip: min_size
 }
 
 type Plugins struct {
@@ -111,6 +112,20 @@ type Model struct {
 	Quote        bool           `json:"quote"` // strings double-quoted (as the shipped file) or plain
 	Comments     bool           `json:"comments"`
 }
+
+// VerifAPIKey is the apiKey of every generated custom-auth entry; the L3 client sends it.
+const VerifAPIKey = "verif-key"
+
+// BareForms are the ways a chain entry can come without a usable config.
+var BareForms = []string{"absent", "null", "null-explicit", "tilde", "empty"}
+
+// BuiltinPlugins are all plugin names Helios registers.
+var BuiltinPlugins = []string{"logging", "headers", "size_limit", "gzip", "custom-auth", "request-id"}
+
+// needsConfig: plugins whose factory cannot work without options (a bare entry must end in an
+// error, never in a panic); for the others a bare entry is the documented `- name: logging` form
+// or documented defaults (size_limit).
+func needsConfig(name string) bool { return name == "gzip" || name == "custom-auth" }
 
 var TimeoutKeys = []string{"read", "write", "idle", "handler", "shutdown", "backend_dial", "backend_read", "backend_idle"}
 
@@ -402,6 +417,19 @@ func (m *Model) sectionPlugins(w *yw) {
 	w.line(1, "chain:")
 	for _, p := range m.Plugins.Chain {
 		w.line(2, "- name: %s", p.Name)
+		if p.Bare != "" {
+			switch p.Bare {
+			case "null":
+				w.line(3, "config:")
+			case "null-explicit":
+				w.line(3, "config: null")
+			case "tilde":
+				w.line(3, "config: ~")
+			case "empty":
+				w.line(3, "config: {}")
+			}
+			continue
+		}
 		switch p.Name {
 		case "size_limit":
 			if p.A == 0 && p.B == 0 {
@@ -428,6 +456,9 @@ func (m *Model) sectionPlugins(w *yw) {
 			w.line(5, "X-App: Helios")
 			w.line(4, "request_set:")
 			w.line(5, "X-From: LB")
+		case "custom-auth":
+			w.line(3, "config:")
+			w.line(4, "apiKey: %s", VerifAPIKey)
 		}
 	}
 }
